@@ -34,6 +34,7 @@
    NOT modelled: clap, opening the key files (a key that does not parse is a panic inside
    readerconfig_from_matches — reached only when the archive has the COMPRESS bit), stderr.
    Definitions only; proofs in CliInfoStack.v (against archive_open) and CliInfoProofs.v. *)
+From MLA Require Import Limit.
 From MLA Require Import Base Stream Blocks Reader CompLayer EncLayer RawLayer LayerStack Format Ecies Archive.
 From Coq Require Import ZArith.
 Open Scope N_scope.
@@ -125,6 +126,7 @@ Record ires := mkIres { i_status : N; i_stdout : bytes }.
 
 Section CliInfo.
   Variables CHUNK TAG BLOCK LIMIT FNMAX : N.
+  Local Hint Extern 0 Limit => exact LIMIT : typeclass_instances.
   Variables TS TC TA TE : N.
   Variable dh : bytes -> bytes -> bytes.
   Variable kdf : bytes -> bytes.
